@@ -436,4 +436,39 @@ def constTypeName (idPrefixes : List Str) (nodes : List Node) (c : ConstNode) : 
   | some f => some f
   | none => (lookupNode idPrefixes nodes c.declType).map (·.name)
 
+/-! ## GType-registered enumerations: `GDumpParser._introspect_enum` (gdumpparser.py) -/
+
+/-- a `<member name= nick= value=>` of the runtime dump (`value` is GEnumValue.value printed with %d /
+GFlagsValue.value printed with %u: the 32-bit image of the header's value) -/
+structure DumpMember where
+  cname : Str
+  nick : Str
+  value : Int
+  deriving Repr, DecidableEq
+
+/-- `member.attrib['nick'].replace('-', '_')` -/
+def nickName (nick : Str) : Str := nick.map (fun c => if c = '-' then '_' else c)
+
+/-- the nick a glib-mkenums style registration derives from a member name: `'_'` -> `'-'` -/
+def toNick (name : Str) : Str := name.map (fun c => if c = '_' then '-' else c)
+
+/-- `previous_values[name]` / `previous_symbols[name]`: the two dicts are filled in member order, so a later
+scanned member of the same name overwrites an earlier one -/
+def lookupPrevious : List Member → Str → Option Member
+  | [], _ => none
+  | m :: ms, n =>
+    match lookupPrevious ms n with
+    | some x => some x
+    | none => if m.name = n then some m else none
+
+/-- `_introspect_enum`, body of the member loop: the scanned value and identifier win when the normalised nick
+names a scanned member, else the dump's -/
+def mergeDumpMember (prev : List Member) (d : DumpMember) : Member :=
+  match lookupPrevious prev (nickName d.nick) with
+  | some m => ⟨nickName d.nick, m.value, m.cident⟩
+  | none => ⟨nickName d.nick, d.value, d.cname⟩
+
+/-- `_introspect_enum`: the member list of the node that replaces the scanned one -/
+def mergeDump (prev : List Member) (ds : List DumpMember) : List Member := ds.map (mergeDumpMember prev)
+
 end GIVerif.EnumConst
